@@ -480,6 +480,59 @@ def gen28(rng, tier):
         pre.insert(0, {'d': 'C', 'p': sub, 'k': 'd'})
     cfg = {'mode': 28, 'cwdC': sub, 'cwdD': '', 'current': 'C', 'at': False, 'pre': pre, 'arm': arm, 'session': {}}
     host_rate = 0 if arm == 'clean' else rng.choice([0, 0.08, 0.15])
+    # half of the histories move about in a family of directories on one level whose names are prefixes
+    # of one another (AB, ABC, ABCD, AB.D): the working directory is part of what a bare name means
+    fam = []
+    base = [sub] if sub else []
+    if rng.random() < 0.5:
+        stem = ''.join(rng.choice(LETTERS) for _ in range(rng.randint(1, 5)))
+        fam = [stem, stem + rng.choice(LETTERS + DIGITS)]
+        if rng.random() < 0.6:
+            fam.append(fam[1] + rng.choice(LETTERS + DIGITS))
+        if rng.random() < 0.3:
+            fam.append(stem + '.' + rng.choice(['D', 'DIR', '1']))
+        if sub and rng.random() < 0.5:
+            # the family of the start directory itself (its siblings in the root)
+            fam.append('..\\' + sub[:-1])
+            fam.append('..\\' + sub.partition('.')[0] + 'X')
+        for f in fam:
+            if rng.random() < 0.7:
+                nm = f[3:] if f.startswith('..\\') else f
+                if rng.random() < 0.2:
+                    nm = alower(nm)
+                pre.append({'d': 'C', 'p': ('' if f.startswith('..\\') or not sub else sub + '/') + nm, 'k': 'd'})
+        cfg['dirs'] = fam
+    gcwd = list(base)      # where the generator believes the working directory is (a guess, to aim the paths)
+
+    def dirpath(m):
+        """A DOS path for family member m as seen from the believed working directory."""
+        if m.startswith('..\\'):
+            parent, nm = [], m[3:]
+        else:
+            parent, nm = base, m
+        forms = ['\\' + ''.join(e + '\\' for e in parent) + nm]
+        if gcwd == parent:
+            forms += [nm, nm, '.\\' + nm]
+        elif gcwd[:-1] == parent:
+            forms += ['..\\' + nm, '..\\' + nm]
+        elif gcwd[:-2] == parent and len(gcwd) >= 2:
+            forms += ['..\\..\\' + nm]
+        return recase(rng, rng.choice(forms)) if rng.random() < 0.6 else rng.choice(forms), parent + [nm]
+
+    def dirop(uid):
+        k = rng.choice(['chdir', 'chdir', 'chdir', 'chdir', 'mkdir', 'mkdir', 'rmdir', 'rmdir', 'rmdir'])
+        r = rng.random()
+        if k == 'chdir' and r < 0.3:
+            path = rng.choice(['..', '..', '\\', '\\' + '\\'.join(base), '.', rand_legal(rng)])
+            if path == '..':
+                del gcwd[-1:]
+            elif path.startswith('\\'):
+                gcwd[:] = [] if path == '\\' else base
+        else:
+            path, where = dirpath(rng.choice(fam))
+            if k == 'chdir':
+                gcwd[:] = where
+        return {'op': 'st', 'k': k, 'p': path, 'uid': uid, 'probe': rng.random() < 0.4}
     kinds = ['open_o', 'open_o', 'save', 'save', 'save_a', 'open_a', 'open_r', 'bsave',
              'open_i', 'open_i', 'open_i', 'load', 'load', 'run', 'bload', 'merge',
              'kill', 'kill', 'name', 'name', 'files', 'files', 'files_mask']
@@ -506,6 +559,9 @@ def gen28(rng, tier):
                 op['q'] = (sub + '/' if sub else '') + rng.choice([nm.lower(), nm.upper(), 'Moved.Txt'])
             ops.append(op)
             continue
+        if fam and rng.random() < 0.3:
+            ops.append(dirop(uid))
+            continue
         k = rng.choice(kinds)
         op = {'op': 'st', 'k': k, 'p': pick(), 'uid': uid}
         if k == 'name':
@@ -513,8 +569,11 @@ def gen28(rng, tier):
         if k == 'files':
             op['p'] = None
         elif k != 'files_mask' and rng.random() < 0.2:
-            # spell the current directory out: '.', an absolute path, or down from the parent
-            op['pfx'] = rng.choice(['.\\'] + (['\\' + sub + '\\', '..\\' + sub + '\\'] if sub else ['\\']))
+            # spell the working directory out: '.', an absolute path, or down from the parent
+            op['pfxk'] = rng.choice(['dot', 'abs', 'up'])
+        if fam and rng.random() < 0.1:
+            # every statement, failed ones too, leaves the working directory where it was
+            op['audit'] = True
         ops.append(op)
     return {'machine': NAME, 'prop': 'C28', 'cfg': cfg, 'ops': ops}
 
@@ -1278,11 +1337,172 @@ class Judge28(object):
         self.env = env
         self.run = env.run
         cfg = env.cfg
-        self.dir = os.path.join(env.mounts['C'], cfg.get('cwdC') or '')
+        self.root = env.mounts['C']
+        # the model of the drive's working directory: host names from the root down; known=False while
+        # the property does not say where it is (its directory was removed, an ambiguous CHDIR succeeded)
+        self.cwd = [e for e in (cfg.get('cwdC') or '').split('/') if e]
+        self.known = True
         self.basic_made = set()
+
+    @property
+    def dir(self):
+        return os.path.join(self.root, *self.cwd)
 
     def violate(self, sig, detail):
         self.run.violate('C28', sig, detail)
+
+    # -- the working directory --------------------------------------------
+
+    def dos_cwd(self, hostlist=None):
+        """DOS spelling of a directory given as host names, or None if a name is not a legal 8.3 name."""
+        names = self.cwd if hostlist is None else hostlist
+        if any(not n.isascii() or strictly_legal(n) is None for n in names):
+            return None
+        return [canon(n) for n in names]
+
+    def set_cwd(self, hostlist):
+        if hostlist != self.cwd:
+            self.cwd = list(hostlist)
+            self.basic_made = set()
+
+    def walk(self, elems, start):
+        """
+        Follow DOS path elements from a directory (host names): ('ok' | 'missing' | 'unclear', host names).
+        'unclear': an element that is not a strictly legal name, or that several host directories stand for.
+        """
+        at = list(start)
+        for e in elems:
+            if e in ('', '.'):
+                continue
+            if e == '..':
+                del at[-1:]
+                continue
+            if strictly_legal(e) is None:
+                return 'unclear', at
+            listing = self.env.list_dir(os.path.join(self.root, *at))
+            if listing is None:
+                return 'missing', at
+            E = canon(aupper(e))
+            Dd = candidates(listing, E, 'd')
+            if len(Dd) > 1 or (not Dd and candidates(listing, E, 'f')):
+                return 'unclear', at
+            if not Dd:
+                return 'missing', at
+            at.append(Dd[0])
+        return 'ok', at
+
+    def header(self):
+        """The working directory as BASIC shows it (first line of a FILES that matches nothing)."""
+        r = self.env.X(b'FILES "ZQ$CWD$Q.$Q$"')
+        self.env.check_monitor('FILES "ZQ$CWD$Q.$Q$"', 'plain')
+        line = r.out.split(b'\r\n')[0]
+        return u(line) if line[1:3] == b':\\' else None
+
+    def audit(self, op, r, what):
+        """Wherever the model says the working directory is, BASIC must say the same and use it."""
+        env, run = self.env, self.run
+        if not self.known:
+            return
+        if not os.path.isdir(self.dir):
+            # the working directory itself is gone (removed from BASIC or by the other party): the property is silent
+            self.known = False
+            run.probe('cwd-directory-gone')
+            return
+        want = self.dos_cwd()
+        outcome = 'ok' if r.err is None else 'err%d' % r.err
+        if want is not None:
+            hdr = self.header()
+            run.probe('cwd-header-checked')
+            exp = 'C:\\' + '\\'.join(want)
+            if hdr is not None and hdr != exp:
+                self.violate('working-directory-moved:after-%s:%s' % (op['k'], outcome),
+                             'FILES shows %r, the working directory was %r and only a successful CHDIR changes it; after %s '
+                             '-> err %r' % (hdr, exp, what, r.err))
+                self.known = False
+                return
+        if op.get('probe'):
+            # a file created under a bare name lands in the working directory
+            name = 'ZQ%06d.PRB' % (op['uid'] % 1000000)
+            before = env.list_dir(self.dir)
+            r2 = env.X(b'OPEN "' + b(alower(name)) + b'" FOR OUTPUT AS 1:PRINT#1,"10 PRINT 1":CLOSE 1')
+            env.check_monitor('OPEN "%s" FOR OUTPUT' % alower(name), 'plain')
+            env.X(b'CLOSE 1')
+            after = env.list_dir(self.dir)
+            run.probe('cwd-probe-file')
+            found = []
+            for dirpath, dirnames, filenames in os.walk(self.root):
+                dirnames.sort()
+                for fn in sorted(filenames):
+                    if aupper(fn) == name:
+                        found.append(os.path.relpath(os.path.join(dirpath, fn), self.root))
+                        os.remove(os.path.join(dirpath, fn))
+            if before is not None and after is not None and (r2.err is not None or name not in after or name in before):
+                self.violate('bare-name-not-in-working-directory:after-%s:%s' % (op['k'], outcome),
+                             'after %s -> err %r, OPEN "%s" FOR OUTPUT -> err %r made host file(s) %r; the working directory is %r' % (
+                                 what, r.err, alower(name), r2.err, found, os.path.relpath(self.dir, self.root)))
+                self.known = False
+
+    def dir_step(self, op):
+        """CHDIR / MKDIR / RMDIR with a path: effect on the host tree and on the working directory."""
+        env, run = self.env, self.run
+        kind, p = op['k'], op.get('p') or ''
+        elems = p.split('\\')
+        start = [] if p.startswith('\\') else self.cwd
+        # (an absolute CHDIR does not depend on where the working directory was: it also ends a spell of not knowing)
+        judged = (self.known or (kind == 'chdir' and p.startswith('\\'))) and '/' not in p and ':' not in p
+        status, target, parent, E, before, empty = 'unclear', None, None, None, None, False
+        if judged:
+            if kind == 'chdir':
+                status, target = self.walk(elems, start)
+            elif [e for e in elems if e] and elems[-1] not in ('', '.', '..') and strictly_legal(elems[-1]) is not None:
+                status, parent = self.walk(elems[:-1], start)
+                E = canon(aupper(elems[-1]))
+                before = env.list_dir(os.path.join(self.root, *parent)) if status == 'ok' else None
+                if before is not None and len(candidates(before, E, 'd')) == 1:
+                    empty = env.list_dir(os.path.join(self.root, *(parent + candidates(before, E, 'd')))) == {}
+        r, what, _ = do_statement(env, op)
+        ctx = '%s -> err %r (working directory %r)' % (what, r.err, '\\'.join(self.cwd))
+        outcome = 'no-error' if r.err is None else 'err%d' % r.err
+        if kind == 'chdir' and judged:
+            if status == 'ok':
+                if r.err is not None:
+                    self.violate('chdir-existing-directory-failed:' + outcome,
+                                 'host directory %r exists and every name on the way is a legal 8.3 name: %s' % ('/'.join(target), ctx))
+                else:
+                    self.set_cwd(target)
+                    self.known = True
+            elif r.err is None:
+                if status == 'missing':
+                    self.violate('chdir-missing-directory-accepted', 'no host directory stands for this path: ' + ctx)
+                self.known = False
+        elif judged and before is not None:
+            after = env.list_dir(os.path.join(self.root, *parent))
+            if after is not None:
+                created = sorted(n for n in after if n not in before)
+                removed = sorted(n for n in before if n not in after)
+                S, Dd = candidates(before, E), candidates(before, E, 'd')
+                ctx += '; host directory %r before %r, created %r removed %r' % ('/'.join(parent), sorted(before), created, removed)
+                if kind == 'mkdir':
+                    if not S and not Dd:
+                        if r.err is not None:
+                            self.violate('mkdir-legal-name-failed:' + outcome, 'nothing stands for this name, it is legal 8.3: ' + ctx)
+                        elif created != [E] or removed or after[E][0] != 'd':
+                            sig = 'created-not-upper-case:mkdir' if len(created) == 1 and canon(created[0]) == E else 'mkdir-wrong-effect'
+                            self.violate(sig, 'expected exactly host directory %r to appear: %s' % (E, ctx))
+                    elif created or removed:
+                        self.violate('mkdir-existing-name-changed-directory', ctx)
+                elif kind == 'rmdir':
+                    here = os.path.join(self.root, *self.cwd) + os.sep
+                    tgt = os.path.join(self.root, *(parent + Dd[:1])) + os.sep
+                    if len(Dd) == 1 and not S and not here.startswith(tgt):
+                        if empty and r.err is not None:
+                            self.violate('rmdir-existing-empty-directory-failed:' + outcome, ctx)
+                        elif created or (removed != Dd if empty and r.err is None else removed):
+                            self.violate('rmdir-wrong-effect', 'expected %s: %s' % ('removal of %r only' % Dd if empty else 'no change', ctx))
+                    elif not Dd and (r.err is None or created or removed):
+                        self.violate('rmdir-missing-directory:' + outcome, 'expected an error and no change: ' + ctx)
+        run.state('C28', kind, status, r.err, len(self.cwd), self.known, path_shape(p))
+        self.audit(op, r, what)
 
     def effective(self, kind, N):
         """Upper-case host name a strictly legal DOS name stands for in this statement, or None."""
@@ -1299,10 +1519,23 @@ class Judge28(object):
 
     def step(self, op):
         env, run = self.env, self.run
+        if op['k'] in ('chdir', 'mkdir', 'rmdir'):
+            return self.dir_step(op)
+        if op.get('pfxk') and self.dos_cwd() is not None:
+            # the working directory spelled out (the name rules do not depend on how the directory is reached)
+            names = self.dos_cwd()
+            op = dict(op, pfx={'dot': '.\\', 'abs': '\\' + ''.join(n + '\\' for n in names),
+                               'up': '..\\' + names[-1] + '\\' if names else '\\'}.get(op['pfxk'], '.\\'))
         kind, N, M = op['k'], op.get('p'), op.get('q')
+        if not self.known:
+            # where bare names lead is not defined by the property just now: monitor and crash check only
+            do_statement(env, op)
+            return
         before = env.list_dir(self.dir)
         r, what, extra = do_statement(env, op)
         after = env.list_dir(self.dir)
+        if op.get('audit'):
+            self.audit(op, r, what)
         if before is None or after is None:
             return
         self.basic_made &= set(before)
